@@ -52,11 +52,27 @@ func hashAllWays(t *boc.Cell, r *ref.RCell, reused *boc.Hasher) error {
 			return fmt.Errorf("reused Hasher.HashString (round %d)=%s,%v want %x", i, s4, err, want)
 		}
 	}
+	// a hash a caller was given stays that hash when the same hasher is asked about another cell
+	kept, _ := reused.Hash(t)
+	keptS, _ := reused.HashString(t)
+	if _, err := reused.Hash(probeCell); err != nil {
+		return fmt.Errorf("HARNESS: %v", err)
+	}
+	_, _ = reused.HashString(probeCell)
+	if !bytes.Equal(kept, want) || keptS != hex.EncodeToString(want) {
+		return fmt.Errorf("the hash handed out by a reused Hasher changed when another cell was hashed: %x / %s, it was %x", kept, keptS, want)
+	}
 	if t.Level() != r.Level() {
 		return fmt.Errorf("Level()=%d want %d (mask %03b)", t.Level(), r.Level(), r.Mask())
 	}
 	return nil
 }
+
+var probeCell = func() *boc.Cell {
+	c := boc.NewCell()
+	_ = c.WriteUint(0x70726f6265, 40)
+	return c
+}()
 
 // disturb moves the read cursors of a cell.
 func disturb(c *core.Ctx, t *boc.Cell) {
